@@ -20,6 +20,16 @@ TEXT = {
          "no-frac callee contracts assumed here and proved in unit nofrac; PartialEq<Bits> contract assumed (Kani cmp8 for 8 bit); bit_vector bridge lemmas are proved, not assumed"),
  "C07": ("Verus proves %, checked_rem, checked_rem_euclid, rem_euclid for all ten families; Kani proves the integer-divisor and Euclidean-division forms on 8-bit layouts outside the region of the recorded finding F-C07-div-euclid",
          "div_euclid family: known finding (region carved out, witness replayed each run); _int forms 8-bit only"),
+ "C08": ("BOUNDED (level other): Kani runs the real parsers on every byte string up to a stated length (9 bytes; 6/8 for decimal), every radix and all nine 8-bit layouts symbolic, against the exactly rounded literal, the overflow/wrap policy and an independent grammar; complete within the bound, never counted as proof",
+         "bound on string length and width (8-bit types); Kani's model of Rust; two genuine defects found this way were fixed (known_findings.json)"),
+ "C09": ("BOUNDED (level other): Kani runs the real formatters on every 8-bit value x all nine layouts: default output correctly rounded and round-trip safe, {:.p} (p <= 9) exactly rounded outside the recorded finding, flags only pad/prefix, radix-2^k outputs exact",
+         "8-bit layouts, precision <= 9, from_utf8 stubbed; known finding F-C09-early-trim carved out"),
+ "C11": ("Both back ends verify under the checking semantics (overflow checks, shift checks, debug assertions of the dev-profile expansion); this check owns the panic-class obligations of all Verus units and of the listed Kani harnesses: when every such site is discharged under the function's precondition, no check can fire and the unchecked build computes the same value",
+         "only functions under contract are covered; evidence.public_fn_coverage lists the public functions under Verus contract, exercised by Kani only, and not covered"),
+ "C12": ("Verus verifies exp, pow, powi, ln, log2 as written, generic over all supported (S, D), against trait-level contracts (no panic-class obligation left; conventions as postconditions); Kani proves sin/cos/tan/sqrt/log2/ln/exp total on I9F23 (whole domain) and sin/cos/exp on wider types for the stated ranges",
+         "trait-level contracts and three conversion/comparison axioms assumed (listed); sqrt generic proof pending; Kani results are per instantiated type"),
+ "C17": ("Kani asserts the hook iteration counter <= 4*width+64 after every call (whole domain on I9F23, stated ranges / whole domain for sin on I32F32 in thorough); the generic Verus unit has only `for` loops over ranges bounded by frac_nbits() <= 128",
+         "counter hook lines in transcendental.rs (guarded); per-type results; the sin range-reduction defect was fixed"),
  "C10": ("Kani runs the real parity-scale-codec derive for one alias per family over all bit patterns: encode == to_le_bytes == encoding of the bits, max_encoded_len, decode round trip, short input fails, byte views inverse",
          "the derive does not mention Frac (one alias per family); memcpy-sized loops closed by unwinding assertions; serde not built"),
  "C18": ("Kani proves every Wrapping<F> operator/method on six 8-bit layouts equal to the exact result modulo 2^8 and to the wrapping_* form of F (shift amounts of all integer types, assigning and by-reference forms, sum/product folds up to 3 elements)",
